@@ -380,7 +380,10 @@ pub fn run(ctx: &Ctx, rep: &mut Report) {
     rep.assumptions = vec!["exact interval arithmetic of vcore::flt (self-tested against std at setup); ryu only as a non-deciding cross-check".into()];
     run_for::<f64>(ctx, rep);
     run_for::<f32>(ctx, rep);
-    if ctx.thorough() {
+    // the exhaustive f32 pass (2^32 values, ~10-20 min of 16 cores each) runs in the three configurations the property
+    // names - one per float-writer back-end (Dragonbox, Grisu) plus the full-feature build; the other thorough
+    // configurations share those back-ends and get the generated / enumerated parts only
+    if ctx.thorough() && matches!(ctx.config.as_str(), "default" | "compact" | "radix+format") {
         all_f32(ctx, rep);
     }
 }
